@@ -138,6 +138,12 @@ func cmdRun(args []string) int {
 }
 
 func defaultOnce() []string {
-	return []string{"unicode", "unicode/utf8", "strconv", "strings", "bytes", "io", "sort", "math", "math/bits", "path", "internal/bytealg", "internal/itoa", "time"}
+	// std packages whose package-level variables (error values, tables) the interpreted code may
+	// observe; initialised once per worker.  Packages that need the runtime, the OS or reflection
+	// at init time are left out (their entry points are intrinsics).
+	return []string{"unicode", "unicode/utf8", "strconv", "strings", "bytes", "io", "io/fs", "bufio", "sort", "math", "math/bits",
+		"path", "path/filepath", "internal/bytealg", "internal/itoa", "time", "encoding/base64", "encoding/hex", "encoding/binary",
+		"container/list", "container/heap", "unicode/utf16", "hash/crc32", "context", "text/tabwriter", "regexp/syntax", "slices", "maps", "cmp",
+		"gopkg.in/tomb.v2"}
 }
 
